@@ -35,12 +35,18 @@ package kgo
 // its announced length was read without error and found within the limit; gzip and lz4 are read through a
 // LimitReader of maxDecompressedSize+1 bytes and an output longer than the limit is an error.
 //@ func (d *decompressor) Decompress(src []byte, codecType CompressionCodecType) (out []byte, err error)
-//@   prop C19
+//@   prop C19 C06
 //@   site call xerialDecode#0 assert [xerial-needs-its-header] len(arg1) > 16
 //@   site call Decode#0 assert [snappy-claim-checked-first] reached($DecodedLen0_0) && $DecodedLen0_1 == nil && int64($DecodedLen0_0) <= maxDecompressedSize
 //@   site call LimitReader#0 assert [gzip-read-is-limited] arg1 <= maxDecompressedSize + 1
 //@   site call LimitReader#1 assert [lz4-read-is-limited] arg1 <= maxDecompressedSize + 1
 //@   site call rfn#0 assert [gzip-over-limit-is-an-error] reached($Copy0_0) && $Copy0_1 == nil && $Copy0_0 <= maxDecompressedSize
+//   ownership: the internally pooled buffer goes back to the pool when Decompress returns (deferred Put), so the
+//   plain-snappy result - which s2.Decode writes into that buffer - is returned as it is only when the buffer came
+//   from the user's pool; otherwise a copy is returned
+//@   site call Clone#0 assert [pooled-snappy-output-is-copied] !userPooled && sameobject(arg0, $Decode0_0)
+//@   site return#9 assert [decode-buffer-returned-as-is-only-from-the-user-pool] userPooled && reached($Decode0)
+//@   site return#10 assert [otherwise-a-copy-is-returned] !userPooled && reached($Clone0) && res0 == $Clone0
 //@   site call rfn#1 assert [lz4-over-limit-is-an-error] reached($Copy1_0) && $Copy1_1 == nil && $Copy1_0 <= maxDecompressedSize
 
 // Compress: the codec used is the first configured option that is not zstd-while-zstd-is-disabled; so with
